@@ -40,17 +40,21 @@ OptAB == {nA, nB}
 SecAE == {nA, nE}
 SecA  == {nA}
 ValsDocQ == {vX, vE}
+ValsDocX == {vX}
 ValsDocT == {vX, vE, vYZ, vQ}
 
 RLoad   == {"single", "load"}
 RNode   == {"single", "nodeparse", "parsenode"}
 RCalls  == {"single", "environ", "args", "clear", "msgset", "msgget"}
 RAll    == RouteNames
+RDocs   == {"single", "load", "nodeparse", "parsenode"}
 CfgTN   == {"top", "null"}
 CfgTNV  == {"top", "null", "view"}
 CfgT    == {"top"}
+CfgTV   == {"top", "view"}
 PreQ    == {<<M, A>>, <<M>>, <<A>>}
 PreN    == {<<A>>, <<A, A>>, <<A, B>>, <<B>>}
+PreD    == {<<M, A>>, <<A>>, <<A, A>>, <<A, B>>}
 PreC    == {<<M, A>>, <<A>>, <<A, B>>}
 
 \* environments ("NAME=value")
@@ -61,15 +65,14 @@ eMAB  == <<77, 112, 116, 95, 65, 95, 98, 61, 61>>         \* Mpt_A_b==      (val
 eM_A  == <<77, 80, 84, 95, 95, 65, 61>>                   \* MPT__A=        (empty element, empty value)
 eOth  == <<65, 61, 120>>                                  \* A=x            (does not match mpt_*)
 eNoEq == <<109, 112, 116, 95, 98>>                        \* mpt_b          (no '=': array only)
-EnvQ == { <<eMA>>, <<eMA, ema>>, <<eOth, eMAB>>, <<eM_A, eNoEq, eMA>> }
-EnvT == EnvQ \cup { <<ema, eMA>>, <<eMAB, eM_A, eOth>>, <<>> }
+EC(how, pat, sep, vs) == [how |-> how, pat |-> pat, sep |-> sep, vs |-> vs]
 pA    == <<97, 42>>                  \* "a*"
 pAll  == <<42>>                      \* "*"
 pQ    == <<109, 63, 116, 95, 97>>    \* "m?t_a"
-PatQ == {Null0, pA}
-PatT == {Null0, pA, pAll, pQ}
-SepsE == {0, 46}
-SepsET == {0, 46, 95, 97}
+EnvQ == { EC("array", Null0, 0, <<eMA, ema>>), EC("environ", Null0, 0, <<eMA, eOth>>),
+          EC("array", pA, 46, <<eOth, eMAB>>), EC("array", Null0, 0, <<eM_A, eNoEq, eMA>>) }
+EnvT == EnvQ \cup { EC("array", Null0, 95, <<ema, eMA>>), EC("environ", pAll, 0, <<eMAB, eM_A, eOth>>),
+                    EC("array", pQ, 97, <<eMA, ema, eMAB>>), EC("environ", pA, 0, <<>>), EC("array", pAll, 46, <<eOth, eMA>>) }
 
 \* argument strings
 aAB  == <<97, 46, 98, 61, 120>>          \* a.b=x
@@ -78,22 +81,24 @@ aAeq == <<97, 61, 61, 120>>              \* a==x      (value "=x")
 aNo  == <<97, 46, 98>>                   \* a.b       (no '=')
 aE   == <<61, 120>>                      \* =x        (the path of one empty element)
 aMA  == <<109, 112, 116, 46, 97, 61>>    \* mpt.a=    (empty value)
-ArgsQ == { <<aAB>>, <<aA, aAB>>, <<aAB, aNo, aAeq>>, <<aMA, aE>> }
-ArgsT == ArgsQ \cup { <<aA, aAeq>>, <<aNo>>, <<aE, aA, aMA, aAB>> }
+AC(lg, items) == [log |-> lg, items |-> items]
+ArgsQ == { AC(0, <<aA, aAB>>), AC(1, <<aAB, aNo, aAeq>>), AC(0, <<aMA, aE>>) }
+ArgsT == ArgsQ \cup { AC(1, <<aA, aAeq>>), AC(0, <<aNo>>), AC(0, <<aE, aA, aMA, aAB>>), AC(1, <<aMA>>) }
 cA   == <<97>>
 cAB  == <<97, 46, 98>>
 cMA  == <<109, 112, 116, 46, 97>>
 cEmp == <<>>
 ClearQ == { <<cA>>, <<cAB, cMA>>, <<cEmp, cAB>> }
 ClearT == ClearQ \cup { <<cMA, cA, cAB>>, <<cAB, cA>> }
-ElsQ == { <<A>>, <<A, B>>, <<M, E, A>>, <<>> }
-MValsQ == { X, <<>> }
-MValsT == { X, <<>>, Y }
-SplitsQ == {1000, 3}
-SplitsT == {1000, 0, 1, 3, 4}
-GetQ == { << <<A>> >>, << <<A, B>> >>, << <<A>>, <<A, B>> >>, << <<M, A>>, <<A>> >> }
-GetT == GetQ \cup { << <<M, E, A>> >>, << <<A, B>>, <<A>>, <<A, B>> >> }
-GSeps == {0, 32}
+MS(hdr, split, els, val) == [hdr |-> hdr, split |-> split, els |-> els, val |-> val]
+MSetQ == { MS(0, 1000, <<A>>, X), MS(1, 3, <<A, B>>, X), MS(1, 1000, <<M, E, A>>, <<>>), MS(0, 1, <<>>, X) }
+MSetT == MSetQ \cup { MS(1, 0, <<A>>, Y), MS(0, 4, <<A, B>>, <<>>), MS(1, 2, <<>>, Y), MS(0, 2, <<E>>, X) }
+MG(sep, split, ps) == [sep |-> sep, split |-> split, ps |-> ps]
+MGetQ == { MG(0, 1000, << <<A>> >>), MG(32, 2, << <<A>>, <<A, B>> >>), MG(0, 3, << <<M, A>>, <<A>> >>) }
+MGetT == MGetQ \cup { MG(32, 1000, << <<M, E, A>> >>), MG(0, 1, << <<A, B>>, <<A>>, <<A, B>> >>), MG(32, 0, << <<A, B>> >>) }
+LK(how, where) == [how |-> how, where |-> where]
+LoadQ == { LK("root", "file"), LK("root", "dir"), LK("prefix", "file") }
+LoadB == { LK("root", "file"), LK("root", "dir"), LK("root", "both"), LK("prefix", "file"), LK("prefix", "both") }
 BasesQ == { <<A>>, <<M, A>> }
 BasesT == { <<A>>, <<M, A>>, <<E>> }
 
@@ -110,6 +115,8 @@ FputT == {Null0, <<58, 58>>, <<46>>, <<>>}
 Bound   == Count(st) <= MaxSlots /\ nops <= MaxOps
 BoundP  == Len(pel) <= 3 /\ Len(po.buf) <= 6
 BoundPT == Len(pel) <= 4 /\ Len(po.buf) <= 8
-ViewX == <<tree, st, draft, doc2, nops>>
+ViewX == <<tree, st, draft, doc2, nops, narr>>
+\* the store sees a document through its forest and events only: texts of one forest are one state
+ViewF == <<tree, st, dcfg, dstack, dnn, doc.exp, doc2.exp, nops, narr>>
 ViewP == <<pel, po, pst>>
 =============================================================================
